@@ -118,6 +118,21 @@ def check_pair(part, db, qt, u, v, c, full=True):
             if not okc:
                 bad("Array.GetValues(%s len %d)" % (kind, len(vals)), repr(g), exp, "Array(%s, u, c).GetValues(v)[0]" % ({"list": "[x]", "tuple": "(x,)", "ndarray": "np.array([x])"}[kind]))
             if len(vals) == len(X):
+                # a copy with NEW values in another unit answers for its own values (asked for the
+                # source's unit, for its own unit, and copied back)
+                n += 3
+                newv = [y * 3.0 + 1.0 for y in vals]
+                cp2 = arr.CreateCopy(values=mk(newv), unit=v)
+                back = [conv(qt, v, u, y) for y in newv]
+                zero_b = abs(conv(qt, v, u, 0.0))
+                g = cp2.GetValues(u)
+                if not (cp2.GetUnit() == v and cp2.GetCategory() == c and len(g) == len(back) and all(close(a, b, max(abs(b), zero_b), TOL) for a, b in zip(g, back))):
+                    bad("Array.CreateCopy(values, unit).GetValues(source unit) %s" % kind, repr(g), back, "Array(%s, u, c).CreateCopy(values=%s, unit=v).GetValues(u)[0]" % ({"list": "[x]", "tuple": "(x,)", "ndarray": "np.array([x])"}[kind], {"list": "[3 * x + 1]", "tuple": "(3 * x + 1,)", "ndarray": "np.array([3 * x + 1])"}[kind]))
+                if list(cp2.GetValues(v)) != newv or list(cp2.GetValues()) != newv:
+                    bad("Array.CreateCopy(values, unit).GetValues(own unit) %s" % kind, repr(cp2.GetValues(v)), newv)
+                g = cp2.CreateCopy(unit=u).GetValues()
+                if not all(close(a, b, max(abs(b), zero_b), TOL) for a, b in zip(g, back)):
+                    bad("Array.CreateCopy(values, unit).CreateCopy(unit) %s" % kind, repr(g), back)
                 n += 1
                 cp = arr.CreateCopy(unit=v)
                 if not obj_ok(cp) or not all(same(a, b, 0) for a, b in zip(cp.GetValues(), exp)) or list(arr.GetValues()) != list(vals):
@@ -137,6 +152,14 @@ def check_pair(part, db, qt, u, v, c, full=True):
         s = fa.IndexAsScalar(i, q_v)
         if not same(s.value, r0[i], i) or not obj_ok(s):
             bad("FixedArray.IndexAsScalar", repr(s), r0[i], "FixedArray(4, ObtainQuantity(u, c), [0.0, 1.0, x, 1e6]).IndexAsScalar(2, ObtainQuantity(v, c))")
+    n += 1
+    fnew = [y * 3.0 + 1.0 for y in X]
+    fcp = fa.CreateCopy(values=list(fnew), unit=v)
+    fback = [conv(qt, v, u, y) for y in fnew]
+    zb = abs(conv(qt, v, u, 0.0))
+    g = [fcp.IndexAsScalar(i, q_u).value for i in range(4)]
+    if not all(close(a, b, max(abs(b), zb), TOL) for a, b in zip(g, fback)) or not all(close(a, b, max(abs(b), zb), TOL) for a, b in zip(fcp.GetValues(u), fback)):
+        bad("FixedArray.CreateCopy(values, unit) then IndexAsScalar / GetValues(source unit)", g, fback)
     for uvu in (True, False):
         n += 1
         # put an amount given in v at index 1; the array is expressed in v (True) or stays in u (False)
